@@ -547,8 +547,8 @@ def classify(op, kind, ctx):
 # ------------------------------------------------------------------ one campaign
 def explore(rep, tier, seed, nh=None, maxlen=None):
     rnd = random.Random(seed)
-    nh = nh or (1500 if tier == "thorough" else 110)
-    maxlen = maxlen or (45 if tier == 'thorough' else 22)
+    nh = nh or (600 if tier == "thorough" else 110)
+    maxlen = maxlen or (40 if tier == "thorough" else 22)
     work = os.path.join(vlib.SCRATCH, 'c08_%d' % os.getpid())
     im = Impl(work)
     I = Intern()
